@@ -46,7 +46,9 @@ TRUSTED_BASE = ["Model/Ro.v transcription of ro.py (owned by C03, validated here
                 "attribute writes and the ro.ro call; _implied read as a key set; KeyError not propagated; fuel and "
                 "dictionary order are not in the source)",
                 "not generated: Specification.__init__ (new_spec), the weak-reference death (drop), Model/Ro.v"]
-ASSUMPTIONS = ["(__name__, __module__) keys are unique among live interfaces (finding F10 is outside this check)",
+ASSUMPTIONS = ["(__name__, __module__) keys are unique among live interfaces; what happens otherwise is finding F10: "
+               "corpus/C02/f10_equal_keys.json shows it on every run (KNOWN-FINDING), C02_equal_keys_refuted proves it "
+               "of the keyed model variant",
                "the base graph stays acyclic (the real code recurses without bound on a cycle)",
                "class __bases__ are never reassigned; ZOPE_INTERFACE_STRICT_IRO / USE_LEGACY_IRO unset"]
 
